@@ -13,7 +13,7 @@ Inductive unode :=
 | USig (ch : int) (frames : list (list int))
 | UGraph (ins : list (list int)) (ids : list int) (cfill : list int) (core : unode).
 
-Inductive ucase := UCase (nd : unode) (out0 : list (list int)) (calls : list (list (list (list int)))).
+Inductive ucase := UCase (nd : unode) (out0 : list (list int)) (calls : list ((int * int) * list (list (list int)))).
 
 Definition z (i : int) : Z := Uint63.to_Z i.
 Definition zs := map z.
@@ -29,6 +29,6 @@ Fixpoint u2z (u : unode) : znode :=
 
 Definition urun_case (c : ucase) : list (list Z) :=
   let '(UCase nd out0 calls) := c in
-  run_case (Case (u2z nd) (zss out0) (map (map zss) calls)).
+  run_case (Case (u2z nd) (zss out0) (map (fun c => ((z (fst (fst c)), z (snd (fst c))), map zss (snd c))) calls)).
 
 Definition ucheck (c : ucase * list (list int)) : bool := zll_eqb (urun_case (fst c)) (zss (snd c)).
